@@ -52,6 +52,10 @@ def _py_map(zid, L, exp):
             % (zid, y, m, dd, nod, len(exp), list(exp)))
 
 
+class _SkipStrict(Exception):
+    pass
+
+
 class _Z:
     def __init__(self, acc, zid):
         self.acc = acc
@@ -118,7 +122,7 @@ def zdt_instant_ns(zdt):
     return zw.ins_ns(zdt.to_instant())
 
 
-def check_local(acc, zc, z, idx, L, full, cals=(), zdt_offsets=True):
+def check_local(acc, zc, z, idx, L, full, cals=(), zdt_offsets=True, lite=False):
     """one local value L (ns on the local time line) against the oracle"""
     zid = zc.zid
     if not (zw.LOCAL_MIN_NS <= L <= zw.LOCAL_MAX_NS):
@@ -169,14 +173,16 @@ def check_local(acc, zc, z, idx, L, full, cals=(), zdt_offsets=True):
             else:
                 acc.outcome("gap-pair-not-unique")
         # every result renders as the local value (the converse direction of the oracle, through the public accessors)
-        for zdt_f in ((m.first, m.last) if cnt else ()):
+        for zdt_f in ((m.first, m.last) if cnt and not lite else ()):
             zdt = zdt_f()
             if zw.ldt_local_ns(zdt.local_date_time) != L:
                 zc.v("map/renders", "a result of map_local(local %s) does not render as that local value" % zw.fmt_ns(L)[:-1], local_ns=L)
         # ---- resolvers
-        acc.count(evaluations=2, transitions=2)
-        # strict
+        acc.count(evaluations=1 if lite else 2, transitions=1 if lite else 2)
+        # strict (skipped for the reduced local set of the thorough tier's far-tail years: raising costs ~1 ms of message formatting)
         try:
+            if lite:
+                raise _SkipStrict()
             r = z.at_strictly(ldt) if full else Resolvers.strict_resolver(m)
             if cnt != 1:
                 zc.v("strict/no-raise", "strict resolution of local %s (count %d) returned instead of raising" % (zw.fmt_ns(L)[:-1], cnt), local_ns=L)
@@ -188,6 +194,8 @@ def check_local(acc, zc, z, idx, L, full, cals=(), zdt_offsets=True):
         except AmbiguousTimeError:
             if cnt != 2:
                 zc.v("strict/raise", "strict resolution of local %s (count %d) raised AmbiguousTimeError" % (zw.fmt_ns(L)[:-1], cnt), local_ns=L)
+        except _SkipStrict:
+            pass
         # lenient
         r = z.at_leniently(ldt) if full else Resolvers.lenient_resolver(m)
         if cnt >= 1:
@@ -448,7 +456,7 @@ def _zone_item_body(item, acc):
             T, o1, o2 = t[0], p[3], t[3]
             acc.outcome("transition:" + ("gap" if o2 > o1 else "overlap" if o2 < o1 else "no-offset-change") + (":%dh+" % (abs(o2 - o1) // 3600) if abs(o2 - o1) >= 7200 else ""))
             for (v, core) in locals_around(T, o1, o2, lite):
-                check_local(acc, zc, z, idx, v, full=bool(core) and not lite, cals=cals if core and not lite else (), zdt_offsets=core == 2)
+                check_local(acc, zc, z, idx, v, full=bool(core) and not lite, cals=cals if core and not lite else (), zdt_offsets=core == 2, lite=lite)
             if not lite:
                 day0 = T // DAY_NS
                 dloc = (T + o2 * NS) // DAY_NS
@@ -522,8 +530,8 @@ def run(ctx):
                        "offsets lie within +-18h, so intervals further than 19h from a local value cannot render it",
                        "local values whose instant would fall outside the range of Instant are only required not to make map_local raise",
                        "quick: canonical zones; stored periods + %d tail years + one seed-positioned block of 6 years + 9997..9999; aliases (same bytes) in the thorough tier only" % QUICK_TAIL_YEARS,
-                       "thorough: canonical zones to the end of time - full local set for stored periods + 400 tail years + 9997..9999, reduced set (5 values per "
-                       "transition, round trip for every 8th interval) for the years in between"]
+                       "thorough: canonical zones to the end of time - full local set for stored periods + 400 tail years + 9997..9999; for the years in between a "
+                       "reduced set (5 values per transition: map_local count/instants/gap intervals and the lenient resolver; render-and-map-back for every 8th interval)"]
     for d in zw.DEGRADED:
         ctx.degrade(d)
     items = build_items(tier, ctx.seed)
